@@ -60,3 +60,51 @@ def fit_tol(cfg):
 
 def same_position(a, b):
     return rngs.signature(a) == rngs.signature(b)
+
+
+# ----------------------------------------------------------------------------- tolerant query comparison
+def query_block(m, Q1, Q2, ctx_free_none=False):
+    """E1 = expectations for Q1 (advances the streams), then P2 = predict(Q2) with G2 = expectations for Q2
+    taken from a deep copy at the same position (used only to recognise near-ties when a tolerance applies)."""
+    import numpy as np
+    out = {}
+
+    def call(obj, name, Q):
+        try:
+            f = getattr(obj, name)
+            return gen.canon(f() if Q is None else f(np.asarray(Q, dtype=float)))
+        except Exception as e:  # noqa: BLE001
+            return ["EXC", type(e).__name__]
+    out["E1"] = call(m, "predict_expectations", Q1)
+    g = copy.deepcopy(m)
+    out["G2"] = call(g, "predict_expectations", Q2)
+    out["P2"] = call(m, "predict", Q2)
+    return out
+
+
+def compare_blocks(a, b, tol):
+    """difference between two query blocks or None; with tol > 0 predicted arms are compared only on rows whose
+    two largest expectations are separated by more than 1e-6 (1 + |max|)"""
+    d = first_diff(a["E1"], b["E1"], tol, "E1")
+    if d:
+        return d
+    if tol == 0:
+        return first_diff(a["P2"], b["P2"], 0, "P2") or first_diff(a["G2"], b["G2"], 0, "G2")
+    d = first_diff(a["G2"], b["G2"], tol, "G2")
+    if d:
+        return d
+    if a["P2"] == b["P2"]:
+        return None
+    if (a["P2"] and a["P2"][0] == "EXC") or (b["P2"] and b["P2"][0] == "EXC"):
+        return "P2: %r != %r" % (a["P2"], b["P2"])
+    pa, pb = gen.pred_rows(a["P2"]), gen.pred_rows(b["P2"])
+    if len(pa) != len(pb):
+        return "P2: %d rows != %d rows" % (len(pa), len(pb))
+    rows = gen.exp_rows(a["G2"])
+    for i, (x, y) in enumerate(zip(pa, pb)):
+        if x != y or type(x) is not type(y):
+            vals = sorted((v for _, v in rows[i] if not math.isnan(v)), reverse=True)
+            if len(vals) >= 2 and vals[0] - vals[1] <= 1e-6 * (1 + abs(vals[0])):
+                continue  # near-tie: legitimately rounding dependent
+            return "P2[%d]: %r != %r" % (i, x, y)
+    return None
